@@ -4,6 +4,7 @@ package main
 
 import (
 	"fmt"
+	"go/ast"
 	"go/token"
 	"go/types"
 	"strings"
@@ -20,22 +21,60 @@ func init() {
 }
 
 // delInRangeRule applies the A8 rule to the given files of a package.
-func delInRangeRule(c *Ctx, rule, short string, files []string, min int) {
+// delInRangeRule scans every file of the package that declares at least one
+// function selected by pick (so the rule follows its functions when they move
+// between files) and reports deletions inside the range they iterate.  One
+// obligation per scanned function.
+func delInRangeRule(c *Ctx, rule, short string, pick func(recv, name string) bool, min int) {
 	controlDelInRange()
 	pk := c.P.Pkg(short)
-	n := 0
-	for _, base := range files {
-		f := fileByName(c.P, pk, base)
+	nFiles, nFuncs := 0, 0
+	for i, f := range pk.Syntax {
+		if strings.HasSuffix(pk.CompiledGoFiles[i], "_test.go") {
+			continue
+		}
+		selected := false
+		for _, d := range f.Decls {
+			if fd, ok := d.(*ast.FuncDecl); ok && fd.Body != nil {
+				recv := ""
+				if fd.Recv != nil && len(fd.Recv.List) == 1 {
+					recv = strings.TrimPrefix(types.ExprString(fd.Recv.List[0].Type), "*")
+					if j := strings.Index(recv, "["); j >= 0 {
+						recv = recv[:j]
+					}
+				}
+				if pick(recv, fd.Name.Name) {
+					selected = true
+				}
+			}
+		}
+		if !selected {
+			continue
+		}
+		nFiles++
 		sites := findDeleteInRange(pk.TypesInfo, f)
+		bad := map[string]bool{}
 		for _, s := range sites {
-			n++
 			c.Ob(rule, short+"."+s.Func+"/"+s.Slice, s.Pos, s.LeavesLoop,
 				fmt.Sprintf("`%s = append(%s[:i], %s[i+1:]...)` inside `for i := range %s` without leaving the loop: the element after each deletion is skipped, stale copies are revisited, and a second match slices out of range", s.Slice, s.Slice, s.Slice, s.Slice))
+			bad[s.Func] = true
 		}
-		// the file itself is an instance: scanned completely
-		c.Ob(rule, short+"/"+base+"/scanned", f.Pos(), true, fmt.Sprintf("file scanned completely, %d delete-inside-range site(s)", len(sites)))
+		for _, d := range f.Decls {
+			if fd, ok := d.(*ast.FuncDecl); ok && fd.Body != nil {
+				name := fd.Name.Name
+				if fd.Recv != nil && len(fd.Recv.List) == 1 {
+					name = types.ExprString(fd.Recv.List[0].Type) + "." + name
+				}
+				nFuncs++
+				if !bad[name] {
+					c.Ob(rule, short+"."+name+"/scanned", fd.Pos(), true, "function scanned completely, no delete-inside-range site")
+				}
+			}
+		}
 	}
-	_ = n
+	if nFiles == 0 || nFuncs < min {
+		anchorFail("%s: scanned %d functions in %d files of package %s, expected at least %d", rule, nFuncs, nFiles, short, min)
+	}
 }
 
 func isHandlerRegistryType(T types.Type) (string, bool) {
@@ -55,7 +94,12 @@ func runC18(c *Ctx) {
 	p := c.P
 
 	c.Rule("C18-D1", "no deletion from a slice inside a range over that slice unless the loop is left immediately (Off must remove exactly the named handlers and never panic)", 6)
-	delInRangeRule(c, "C18-D1", "sio", []string{"store.go", "namespace_events.go", "server_events.go", "server_socket_events.go", "client_socket_events.go", "client_manager_events.go"}, 6)
+	delInRangeRule(c, "C18-D1", "sio", func(recv, name string) bool {
+		if recv == "handlerStore" || recv == "eventHandlerStore" {
+			return true
+		}
+		return recv != "" && (strings.HasPrefix(name, "On") || strings.HasPrefix(name, "Once") || strings.HasPrefix(name, "Off"))
+	}, 60)
 
 	// ---------------------------------------------------------------- D3
 	c.Rule("C18-D3", "OffAll exhaustiveness: every handler-registry field of the receiver is cleared by OffAll", 15)
